@@ -57,6 +57,7 @@ class C14(Property):
     ID = "C14"
     SESSIONS = ["s0"]
     RUNS = {"quick": (600, 1000), "thorough": (12000, 20000)}
+    MUST_REACH = {"probes": ["cube_rotations_checked", "blob_inside_box", "placed_particles", "template_list", "window_inside", "window_partial", "window_outside", "density_conserved_checked"], "faults": ["alloc_nan", "alloc_huge", "alloc_neg7", "alloc_stale", "eio_read"]}
     COMPONENTS = {"real": ["cryocat.cryomap / cryomotl (working tree of /repo)", "scipy.ndimage", "numpy", "emfile", "mrcfile"],
                   "stub": ["numpy.empty / empty_like as seen by cryocat.cryomap -> cryosim.alloc.AllocProxy (poisoning allocator)",
                            "OS file system -> cryosim.SimFS"]}
